@@ -55,12 +55,14 @@ class BurstForwarder(TRXList):
 			if trx == src_trx:
 				continue
 
-			# Check transceiver state
-			if not trx.running:
-				continue
-
 			# Match Tx/Rx frequencies of the both transceivers
 			if trx.get_rx_freq(rx_msg.fn) != tx_freq:
+				continue
+
+			# Check transceiver state (after the frequency, because
+			# POWEROFF in another thread first stops the transceiver
+			# and then resets its hopping parameters)
+			if not trx.running:
 				continue
 
 			# Transform from TxMsg to RxMsg and forward
